@@ -32,7 +32,7 @@ CONSTANTS RootUsesMenu,   \* menu (a sequence) of `uses` lists: sequences of [f,
 \* input kinds: "class"/"name" (required), "opt" (InputTaskParameter with a default), "pattern" (~regex, own namespace)
 NoGrp == <<>>
 Ref(g, n) == [ns |-> <<>>, grp |-> g, name |-> n]
-Classes == {"a", "b", "c", "d", "trainx", "ge", "f", "pat", "cy1", "cy2", "z", "w", "bsub", "both", "both2"}
+Classes == {"a", "b", "c", "d", "trainx", "ge", "f", "pat", "cy1", "cy2", "z", "w", "bsub", "both", "both2", "gb", "mi"}
 Slug == [c \in Classes |->
   CASE c = "a" -> Ref(NoGrp, "a")            [] c = "b" -> Ref(NoGrp, "b")
     [] c = "c" -> Ref(NoGrp, "c")            [] c = "d" -> Ref(NoGrp, "d")
@@ -41,10 +41,13 @@ Slug == [c \in Classes |->
     [] c = "cy1" -> Ref(NoGrp, "cy1")        [] c = "cy2" -> Ref(NoGrp, "cy2")
     [] c = "z" -> Ref(NoGrp, "z")            [] c = "w" -> Ref(<<"g">>, "a")
     [] c = "both" -> Ref(NoGrp, "both")      [] c = "both2" -> Ref(NoGrp, "both2")
+    [] c = "gb" -> Ref(<<"g">>, "b")          \* a grouped namesake of b (another class)
+    [] c = "mi" -> Ref(NoGrp, "mi")           \* a class whose Meta INHERITS its input declaration from a base Meta class
     [] c = "bsub" -> Ref(NoGrp, "bsub")]      \* a class DERIVED from b with a Meta of its own: its own name, inputs, no parameters
 Inputs == [c \in Classes |->
   CASE c = "b" -> <<[kind |-> "class", ref |-> Ref(NoGrp, "a")]>>
-    [] c = "c" -> <<[kind |-> "name", ref |-> Ref(NoGrp, "a")], [kind |-> "opt", ref |-> Ref(NoGrp, "b")]>>
+    [] c = "c" -> <<[kind |-> "name", ref |-> Ref(NoGrp, "a")], [kind |-> "opt", ref |-> Ref(NoGrp, "b"), byclass |-> TRUE]>>
+    [] c = "mi" -> <<[kind |-> "name", ref |-> Ref(NoGrp, "a")]>>
     [] c = "d" -> <<[kind |-> "class", ref |-> Ref(NoGrp, "train_x")]>>
     [] c = "f" -> <<[kind |-> "name", ref |-> Ref(NoGrp, "e")]>>
     [] c = "pat" -> <<[kind |-> "pattern", ref |-> Ref(NoGrp, "a")]>>    \* ~(.*:)?a : every task named a, any group
@@ -151,12 +154,15 @@ ParamErr == \E n \in Nodes : \E i \in 1..Len(Params[n.c]) : "err" \in DOMAIN Par
 Siblings(n) == {NameOf(k) : k \in {k \in Nodes : k.ns = n.ns}}
 NodeNamed(t) == CHOOSE k \in Nodes : NameOf(k) = t
 ResolveIn(n, ref) == PFind([ns |-> n.ns, grp |-> ref.grp, name |-> ref.name], Siblings(n))
+\* a reference BY CLASS means the task of that class: its exact slug in the namespace, never a namesake in another group
+ByClass(inp) == inp.kind = "class" \/ ("byclass" \in DOMAIN inp /\ inp.byclass)
+ExactIn(n, ref) == LET t == [ns |-> n.ns, grp |-> ref.grp, name |-> ref.name] IN IF t \in Siblings(n) THEN t ELSE NotFound
 
 \* one declared input -> sequence of resolved entries: <<node>>, <<"default">> (absent optional), or an error
 WireOne(n, inp) ==
   IF inp.kind = "pattern"
   THEN LET S == {k \in Nodes : k.ns = n.ns /\ Slug[k.c].name = inp.ref.name} IN [set |-> S]
-  ELSE LET r == ResolveIn(n, inp.ref) IN
+  ELSE LET r == IF ByClass(inp) THEN ExactIn(n, inp.ref) ELSE ResolveIn(n, inp.ref) IN
        IF "err" \in DOMAIN r THEN (IF inp.kind = "opt" THEN [absent |-> TRUE] ELSE [err |-> "input"])
        ELSE [node |-> NodeNamed(r)]
 InputErr == \E n \in Nodes : \E i \in 1..Len(Inputs[n.c]) : "err" \in DOMAIN WireOne(n, Inputs[n.c][i])
